@@ -157,6 +157,7 @@ theorem producer_good (g : Grid) (env load : Nat → Rat) (h : Hyp g env load) :
 
 theorem pv_dfs_good (g : Grid) (env load : Nat → Rat) (h : Hyp g env load) :
     (pvFormula g none).good env (g.pvTotal env) := by
+  show (pvFormulaR pairRequiresAllRequested g none).good env (g.pvTotal env)
   obtain ⟨hs, hf⟩ := dfsL_sum (condSpec_anyChain pvDfsChains) env load g.succ (topPos g) none
     (by intro p ppos e; cases e) h.law h.noLoad
   rw [kindOf_pv] at hs
@@ -225,11 +226,12 @@ theorem pvSel_leaf (ids : List Nat) (c : Node) (h : pvSel ids c = true) : leafTe
 theorem batSel_leaf (S : List Nat) (c : Node) (h : batSel S c = true) : leafTest .batteryInverter c = true := by
   simp only [batSel, batteryInverterLeaf, Bool.and_eq_true] at h; exact h.1
 
-/-- PV pool formula for a pool that shares no dedicated meter with inverters outside the pool. -/
-theorem pv_pool_good (g : Grid) (env load : Nat → Rat) (h : Hyp g env load) (i : Nat) (is : List Nat)
-    (hc : poolClosedL (pvSel (i :: is)) (topPos g) g.succ = true) :
-    (pvFormula g (some (i :: is))).good env (devSumL (pvSel (i :: is)) env g.succ) := by
-  obtain ⟨hs, hf⟩ := poolTerms_sum .pvInverter _ (pvSel_leaf (i :: is)) env load g h.law h.noLoad hc
+/-- PV pool formula for a pool that shares no dedicated meter with inverters outside the pool
+(or for any pool, once pairing requires all successors of the meter to be requested). -/
+theorem pv_pool_good (req : Bool) (g : Grid) (env load : Nat → Rat) (h : Hyp g env load) (i : Nat) (is : List Nat)
+    (hc : req = true ∨ poolClosedL (pvSel (i :: is)) (topPos g) g.succ = true) :
+    (pvFormulaR req g (some (i :: is))).good env (devSumL (pvSel (i :: is)) env g.succ) := by
+  obtain ⟨hs, hf⟩ := poolTerms_sum req .pvInverter _ (pvSel_leaf (i :: is)) env load g h.law h.noLoad hc
   exact pool_good env h.none0 _ _ _ _ _ hs hf
 
 theorem pv_all_good (g : Grid) (env load : Nat → Rat) (h : Hyp g env load) (ids : List Nat)
@@ -239,10 +241,10 @@ theorem pv_all_good (g : Grid) (env load : Nat → Rat) (h : Hyp g env load) (id
   | nil =>
     -- no PV inverter in the graph: the search finds nothing either
     have := pv_dfs_good g env load h
-    simpa [pvFormula] using this
+    simpa [pvFormula, pvFormulaR] using this
   | cons i is =>
     have hc := closedL_of_full .pvInverter _ (pvSel_leaf (i :: is)) g.succ (topPos g) hfull
-    have := pv_pool_good g env load h i is hc
+    have := pv_pool_good pairRequiresAllRequested g env load h i is (Or.inr hc)
     rw [devSumL_selFull _ _ (pvSel_leaf (i :: is)) env g.succ hfull] at this
     have e : devSumL (leafTest .pvInverter) env g.succ = devSumL Node.isPv env g.succ :=
       devSumL_congr _ _ env (fun n _ => leafTest_pv n) g.succ
@@ -250,12 +252,12 @@ theorem pv_all_good (g : Grid) (env load : Nat → Rat) (h : Hyp g env load) (id
     exact this
 
 /-- Battery pool formula for a pool that shares no dedicated meter with inverters outside the pool. -/
-theorem battery_pool_good (g : Grid) (env load : Nat → Rat) (h : Hyp g env load) (S : List Nat)
+theorem battery_pool_good (req : Bool) (g : Grid) (env load : Nat → Rat) (h : Hyp g env load) (S : List Nat)
     (hne : S.isEmpty = false) (herr : batErrL S g.succ = false)
-    (hc : poolClosedL (batSel S) (topPos g) g.succ = true) :
-    (batteryFormula g S).good env (devSumL (batSel S) env g.succ) := by
-  obtain ⟨hs, hf⟩ := poolTerms_sum .batteryInverter _ (batSel_leaf S) env load g h.law h.noLoad hc
-  simp only [batteryFormula, hne, herr, Bool.false_eq_true, if_false]
+    (hc : req = true ∨ poolClosedL (batSel S) (topPos g) g.succ = true) :
+    (batteryFormulaR req g S).good env (devSumL (batSel S) env g.succ) := by
+  obtain ⟨hs, hf⟩ := poolTerms_sum req .batteryInverter _ (batSel_leaf S) env load g h.law h.noLoad hc
+  simp only [batteryFormulaR, hne, herr, Bool.false_eq_true, if_false]
   refine Formula.good_ok _ _ _ ?_ (fallbacksAgree_mkTerm env false _ _ _ hf)
   rw [evalTerms_mkTerm_pos, hs]
 
@@ -290,13 +292,13 @@ theorem battery_all_good (g : Grid) (env load : Nat → Rat) (h : Hyp g env load
     (batteryFormula g S).good env (g.batTotal env) := by
   by_cases hne : S.isEmpty = true
   · have hz := devSumL_zero_of_no_bats env g.succ h.bats (hS hne)
-    simp only [batteryFormula, hne, if_true]
+    simp only [batteryFormula, batteryFormulaR, hne, if_true]
     refine Formula.good_ok _ _ _ ?_ (nonExisting_fb env _)
     rw [nonExisting_eval env _ h.none0, Grid.batTotal, hz]
   · have hne' : S.isEmpty = false := by simpa using hne
     obtain ⟨hfull, herr⟩ := bat_fullL S g.succ hcov h.bats
     have hc := closedL_of_full .batteryInverter _ (batSel_leaf S) g.succ (topPos g) hfull
-    have := battery_pool_good g env load h S hne' herr hc
+    have := battery_pool_good pairRequiresAllRequested g env load h S hne' herr (Or.inr hc)
     rw [devSumL_selFull _ _ (batSel_leaf S) env g.succ hfull] at this
     have e : devSumL (leafTest .batteryInverter) env g.succ = devSumL Node.isBat env g.succ :=
       devSumL_congr _ _ env (fun n _ => leafTest_bat n) g.succ
